@@ -209,7 +209,9 @@ func (e *Engine) checkInverted(
 	}
 
 	return func(ctx context.Context, resultCh chan<- checkgroup.Result) {
-		innerCh := make(chan checkgroup.Result)
+		// Buffered, so that the inner check can always deliver its result and
+		// exit, even if we stopped listening because ctx is done.
+		innerCh := make(chan checkgroup.Result, 1)
 		go check(graph.WithFreshVisited(ctx), innerCh)
 		select {
 		case result := <-innerCh:
